@@ -390,4 +390,18 @@ theorem tokens_example :
       ["B101".toList, "B602".toList, "assert_used".toList, "b3".toList, "B1".toList, "x".toList, "xB2".toList] :=
   (captures_is_tokenisation _ _ _).mp (by decide +kernel)
 
+/-- Whole-file findings (B613) are judged in the `File` pseudo-context, whose range is the placeholder line 0: no comment sits on line 0, so the only
+nosec comment that can apply to such a finding is the one on its own reported line.  (On the pinned commit the placeholder range was `[0, 1]`, and a bare
+`# nosec` on the FIRST line of a file withheld every B613 finding of the file: found by the C02 check when it learnt to place comments around file-level
+findings, repaired by /repo `fix: a nosec comment on the first line of a file suppressed trojan-source findings on every line`.) -/
+theorem file_level_nosec_is_line_local (nm : NosecMap) (raw : Raw) (h0 : nm.get 0 = none) :
+    nosecsFor nm raw fileCtx = raw.lineno.bind nm.get := by
+  unfold nosecsFor getNosec fileCtx
+  simp only [List.findSome?, h0]
+  cases raw.lineno.bind nm.get <;> rfl
+
+/-- regression witness of the repaired defect: a bare comment on line 1 no longer reaches a file-level finding on line 4 -/
+theorem FIXED_first_line_nosec_does_not_reach_file_findings :
+    nosecsFor [(1, some [])] { sev := .high, conf := .medium, lineno := some 4 } fileCtx = none := by decide
+
 end Props.C02
